@@ -119,7 +119,7 @@ where
                 let stats = RefCell::new(Stats::default());
                 let failed = std::cell::Cell::new(false);
                 let strat = strategy();
-                let res = runner.run(&strat, |case| {
+                let res = catch(|| runner.run(&strat, |case| {
                     if failed.get() {
                         // shrinking: evaluate without touching the statistics
                         let mut scratch = Stats::default();
@@ -151,7 +151,16 @@ where
                             Err(TestCaseError::fail(e.rule))
                         }
                     }
-                });
+                }));
+                let res = match res {
+                    Ok(r) => r,
+                    Err(msg) => {
+                        // a panic inside the generator library (not in the code under test, whose panics are caught
+                        // per case): this worker stops early, the others carry on; recorded, never a violation
+                        stats.borrow_mut().note(format!("worker {} stopped early: the case generator panicked: {}", w, msg));
+                        Ok(())
+                    }
+                };
                 let found = match res {
                     Ok(()) => None,
                     Err(TestError::Fail(_, minimal)) => {
